@@ -159,6 +159,8 @@ def make_pool(tier):
     nan_arr = _data((4, 4), rot=7).copy()
     nan_arr[1, 2] = np.nan
     nan_arr[3, 0] = np.nan
+    nan_arr[0, 0] = np.inf
+    nan_arr[2, 3] = -np.inf
     p["NANARR"] = nan_arr
     p["NANIMG"] = darsia.Image(nan_arr.copy(), scalar=True, name="NANIMG", **g2())
     # label-wise threshold bounds handed over as float64 arrays, a two-label map and a bimodal signal
@@ -469,7 +471,9 @@ def _arith2(name, pyop):
 _arith2("add", lambda a, b: a + b)
 _arith2("sub", lambda a, b: a - b)
 
-for _nm, _s in (("float", 2.5), ("int", 2), ("npfloat64", np.float64(0.5)), ("bigint", 300), ("negint", -3)):
+# (+ the scalars for which a shortcut is tempting: zero in every spelling, and one)
+for _nm, _s in (("float", 2.5), ("int", 2), ("npfloat64", np.float64(0.5)), ("bigint", 300), ("negint", -3),
+                ("zero-int", 0), ("zero-float", 0.0), ("neg-zero", -0.0), ("false", False), ("one-int", 1), ("one-float", 1.0)):
 
     def _mk(_nm=_nm, _s=_s):
         @op(f"mul/{_nm}", arith=True, group=f"mul-{_nm}")
